@@ -27,7 +27,7 @@ def gen_cases(rng, tier):
         m = rng.choice(["subst", "subst", "subst", "delete", "insert", "truncate", "splice", "hdr", "keyswap", "secretswap", "secretswap", "none", "subst2"])
         cases.append({"digest": rng.choice(["md5", "sha1", "sha256"]), "key": rng.choice(KEYS), "vi": rng.randrange(len(VALUES)),
                       "mut": m, "pos": rng.random(), "pos2": rng.random(), "byte": rng.choice(SUBS + [rng.randrange(256)]), "vj": rng.randrange(len(VALUES)),
-                      "key2": rng.choice(KEYS), "other_secret": rng.choice(["0ther", "S3CR3T", "s3cr3T", "s3cr3t ", "s3cr3"])})
+                      "key2": rng.choice(KEYS), "other_secret": rng.choice(["0ther", "S3CR3T", "s3cr3T", "s3cr3t ", "s3cr3"]), "via_url": rng.random() < 0.3})
     if tier == "thorough":  # every position x substitution set, 3 blobs x 3 digests
         for dg in ("md5", "sha1", "sha256"):
             for vi in (0, 2, 4):
@@ -67,7 +67,7 @@ def _mutate(case, blob, other):
 
 
 def run_impl(case):
-    cfg = {"pickler": "default", "secret": True, "digest": case["digest"]}
+    cfg = {"pickler": "default", "secret": True, "digest": case["digest"], "via_url": bool(case.get("via_url"))}
     key = case["key"]
 
     async def go():
@@ -84,6 +84,18 @@ def run_impl(case):
         mem, rec = serrun.make(rcfg)
         try:
             await mem.init()
+            if case["mut"] == "keyswap" and wkey != key:
+                # the genuine entry is read under its own key first, by the same serializer: a verification result must not be
+                # remembered for the bytes alone
+                mem.store[wkey] = (None, honest)
+                try:
+                    await mem.get(wkey, default=serrun.DEFAULT)
+                    await mem.get_many(wkey, default=serrun.DEFAULT)
+                except Exception:  # noqa
+                    pass
+                del mem.store[wkey]
+                for t in ("loads", "macs", "dumps"):
+                    del rec[t][:]
             rs = []
             for via in ("get", "get_many", "get_match"):
                 mem.store[key] = (None, blob)
